@@ -155,6 +155,11 @@ func (p *Pool) Stop() {
 		// wait child workers
 		close(p.taskQueue)
 		p.wg.Wait()
+
+		// tasks still queued (the pool was never started): release their waiters
+		for t := range p.taskQueue {
+			t.future <- &TaskResult{Err: p.ctx.Err()}
+		}
 	}
 }
 
